@@ -8,6 +8,7 @@ package main
 import (
 	"fmt"
 	"os"
+	"time"
 	"regexp"
 	"sort"
 	"strings"
@@ -201,10 +202,14 @@ func legC05Opt(c *Ctx) {
 		}
 	}
 	shapeOpts := []syntax.RegexOptions{0, syntax.IgnoreCase, syntax.Singleline, syntax.Multiline, syntax.RightToLeft, syntax.ECMAScript}
-	for _, s := range append(append([]string{}, rewriteShapes...), c05OptShapes...) {
+	for _, s := range c05OptShapes {
 		for _, o := range shapeOpts {
 			addp(s, o, "shape")
 		}
+	}
+	for i, s := range rewriteShapes {
+		addp(s, 0, "shape")
+		addp(s, shapeOpts[1+i%5], "shape")
 	}
 	for _, p := range genPatterns(c.Rng, c.N(1200, 40000), true) {
 		addp(p.pat, syntax.RegexOptions(p.o.bits()), "ast")
@@ -219,6 +224,7 @@ func legC05Opt(c *Ctx) {
 		addp(p, 0, "corpus")
 	}
 
+	tStart := time.Now()
 	var ents []*c05optEntry
 	var flagLegs []int
 	var flagIns [][]int64
@@ -274,13 +280,14 @@ func legC05Opt(c *Ctx) {
 				e.class = "expression conditionals with and without a lookahead condition (ending-backtracking removal on)"
 			}
 			ents = append(ents, e)
-			if g == 0 && (differs || c.Rng.Chance(20)) {
+			if g == 0 && len(flagIns) < c.N(1500, 20000) && ((differs && c.Rng.Chance(c.N(60, 100))) || c.Rng.Chance(5)) {
 				flagLegs = append(flagLegs, 501)
 				flagIns = append(flagIns, c05optModelIn(g, true, condLook, t31.Root))
 				flagDesc = append(flagDesc, desc)
 			}
 		}
 	}
+	tPrep := time.Now()
 	// (1) the exact reference
 	l2 := make([]int, len(ents))
 	i2 := make([][]int64, len(ents))
@@ -294,7 +301,11 @@ func legC05Opt(c *Ctx) {
 		c.Add(&Case{Desc: "c05-opt: model execution failed: " + err.Error(), Direct: "model execution failed"})
 		return
 	}
+	t502 := time.Now()
 	o1, err := runModel(c.ModelBin, l1, i1)
+	if os.Getenv("VERIF_C05_DEBUG") != "" {
+		fmt.Fprintf(os.Stderr, "TIMING prepare %.1fs, model 502 %.1fs, model 501 %.1fs (%d cases)\n", tPrep.Sub(tStart).Seconds(), t502.Sub(tPrep).Seconds(), time.Since(t502).Seconds(), len(ents))
+	}
 	if err != nil {
 		c.Add(&Case{Desc: "c05-opt: model execution failed: " + err.Error(), Direct: "model execution failed"})
 		return
@@ -316,9 +327,15 @@ func legC05Opt(c *Ctx) {
 		}
 		compared++
 		impl := append([]int64{0, 0}, e.encg...)
-		c.Add(&Case{Desc: e.desc, ModelLeg: 502, ModelIn: e.in502, ImplOut: impl, Nontrivial: e.differs, Key: e.key, Class: fmt.Sprintf("mask%d", e.g)})
-		if e.differs && eqInts(mo, impl) {
-			firedRef[e.g]++
+		if eqInts(mo, impl) {
+			// evaluated above; only a disagreement is handed to the framework again (which re-evaluates it and files the replay)
+			c.Add(&Case{Desc: e.desc, Nontrivial: e.differs, Key: e.key, Class: fmt.Sprintf("mask%d", e.g)})
+			c.res.ModelEvals++
+			if e.differs {
+				firedRef[e.g]++
+			}
+		} else {
+			c.Add(&Case{Desc: e.desc, ModelLeg: 502, ModelIn: e.in502, ImplOut: impl, Nontrivial: e.differs, Key: e.key, Class: fmt.Sprintf("mask%d", e.g)})
 		}
 		// (2) the post-pass
 		post := o1[k]
